@@ -19,6 +19,7 @@ import Ogen.TStore_proof
 import Ogen.UnixTime_proof
 import Ogen.FloatValidateModel
 import Ogen.JsonCodecDriver
+import Ogen.GenOrderDriver
 
 /-! Line-protocol driver over all executable models: `<model> <payload>` per line, one
     canonical output line per input line. Core-only (no Mathlib) so it links natively. -/
@@ -68,6 +69,9 @@ def dispatch (line : String) : String :=
     | "vfloat" => FloatV.floatLine payload
     | "jcodec" => JCodecDrv.codecLine payload
     | "jaccept" => JCodecDrv.acceptLine payload
+    | "sortkeys" => GenOrderDrv.sortkeysLine payload
+    | "collect" => GenOrderDrv.collectLine payload
+    | "writers" => GenOrderDrv.writersLine payload
     | "jeq" => JEqDrv.runLine payload
     | "enum" => JEqDrv.enumLine payload
     | _ => "bad-model"
